@@ -219,7 +219,7 @@ class Stage:
         if self.bound is not None:
             d["bound"] = self.bound
         if a.states:
-            d["states"] = a.states
+            d["states"] = a.states if self.kind == "bfs" else min(a.states, a.distinct())
             d["transitions"] = a.transitions
             d["traces_validated_against_impl"] = a.traces
         if a.unavailable:
